@@ -456,6 +456,21 @@ def extra_configs(prop, tier, seed):
             for c in [c for c in pool_n if c['kind'] == kind][:1 if tier == 'quick' else 3]:
                 extra.append(dict(c, hook='nudgebest', adv=0.0, n_iter=max(c['n_iter'], 4), objective=['constant', 'plateau', 'sphere'][j_ % 3],
                                   store_best_only=(j_ % 2 == 1), hyper={}))
+    if prop in ('C02', 'C20', 'C04'):
+        # fitness values of unusual numeric classes: unsigned NumPy integers (differences wrap around), 64-bit integers and Python
+        # integers beyond 2**53 (neighbouring values share one double), exact rationals - for the kinds that only compare fitness
+        pool_x = [c for c in runlevel.gen_configs('thorough', seed + 381) if c['space'] == 'search']
+        kinds_x = {'C02': ['SA', 'HC', 'ABC', 'HS', 'PSO', 'FA', 'CS'], 'C20': ['ABC', 'CS', 'FPA', 'HS', 'IHS', 'BA', 'HC', 'SA'], 'C04': ['HC', 'PSO', 'ABC']}[prop]
+        objs_x = ['uintcost', 'bigint', 'bigpyint', 'thirds']
+        for j_, kind in enumerate(kinds_x):
+            ks = [c for c in pool_x if c['kind'] == kind]
+            for q_ in range(2 if tier == 'quick' else 6):
+                if not ks:
+                    break
+                c = ks[q_ % len(ks)]
+                nv = max(c['n_vars'], 2)
+                extra.append(dict(c, hook='observer', adv=0.0, n_iter=8, n_agents=max(c['n_agents'], 6), n_vars=nv, box='wide', lb=[-10.0] * nv, ub=[10.0] * nv,
+                                  objective=objs_x[(j_ + q_ * 3) % 4] if not (kind == 'SA' and q_ == 0) else 'uintcost', hyper={}, store_best_only=False))
     if prop == 'C15':
         # the ranges of the adaptive hyperparameters narrowed through the setters by a hook while the task runs
         pool_r = runlevel.gen_configs('thorough', seed + 341)
